@@ -78,8 +78,10 @@ def run(rng, tier, res=None, want=("knnpred", "select")):
         if kind == "sparse":
             metric = rng.choice(["canberra", "bray_curtis", "chi_squared", "clark"])   # zero-guarded ratio metrics on data with zeros
             d = max(d, 3)
+        if unsup and kind in ("normal", "blobs") and rng.random() < 0.5:
+            kind = "tiny"          # small numeric scales matter most where the k-th-neighbour bound feeds the densities
         if kind == "tiny":
-            metric = rng.choice(["squared_euclidean", "euclidean"])
+            metric = rng.choice(["squared_euclidean", "squared_euclidean", "euclidean"])
         asym = metric in ("pearson", "neyman", "kullback_leibler", "k_divergence")     # d(x, t) != d(t, x): the orientation of every evaluation matters
         fn = dist.DISTANCES[metric]
         X = gen_data(rng, n, d, kind)
@@ -180,6 +182,13 @@ def run(rng, tier, res=None, want=("knnpred", "select")):
                 inject = rng.random() < 0.5
                 inj = [rng.choice([0.0, 0.0, 0.25, 0.5, 0.5, 0.75, 1.0]) for _ in range(max_k + 2)]
 
+                cand_states = []
+
+                def cand_snapshot(sg_):
+                    # the candidate model as it stands when its validation accuracy is taken
+                    return [(tuple(int(a_) for a_ in nd_.adjacency), nd_.pred, nd_.predicted_label, fb(nd_.cost), fb(nd_.density), nd_.n_plateaus)
+                            for nd_ in sg_.nodes]
+
                 def acc_wrap(a, b):
                     if [int(t) for t in a] != [int(t) for t in Yv]:
                         viol("C16", f"validation accuracy evaluated as opf_accuracy({[int(t) for t in a][:6]}..., ...): its first argument is not the "
@@ -207,6 +216,10 @@ def run(rng, tier, res=None, want=("knnpred", "select")):
                         pass
                     if inject:
                         v = inj[len(crit)]
+                    try:
+                        cand_states.append(cand_snapshot(o.subgraph))
+                    except Exception:
+                        cand_states.append(None)
                     crit.append(v); return v
                 import opfython.subgraphs.knn as KN
 
@@ -294,6 +307,10 @@ def run(rng, tier, res=None, want=("knnpred", "select")):
                 wantk = 1 + crit.index(max(crit))
                 if best_k != wantk:
                     msgs.append(f"kept k={best_k}; smallest k with the highest accuracy in {crit} is {wantk}")
+                    # the kept k is not a function of what THIS training run computed: whatever else decides it is hidden state
+                    viol("C07", f"KNN-supervised training kept k={best_k} although the accuracies of this run's own candidates {crit} select "
+                                f"{wantk} (max_k={max_k}): the result depends on something other than the arguments of this call "
+                                f"(state left by earlier fits?)", meta)
                 viol("C16", msgs, meta)
             # the criterion itself: normalised cut of the final clustering, against the model (Float, bit-exact)
             if unsup and not negm:
@@ -338,17 +355,26 @@ def run(rng, tier, res=None, want=("knnpred", "select")):
                     res.hit("candidate_cuts_rederived")
                 except Exception as ex:
                     res.notes.append(f"candidate re-derivation skipped: {type(ex).__name__}")
-            if (not unsup) and not inject and not pre:
+            if (not unsup) and not pre:
                 try:
                     sg4 = KNNSubgraph(X.copy(), Y.copy())
                     o4 = KS.KNNSupervisedOPF(max_k=max_k, distance=metric); o4.subgraph = sg4
-                    accs4 = []
+                    accs4, states4 = [], []
                     for k4 in range(1, max_k + 1):
                         sg4.best_k = k4
                         sg4.create_arcs(k4, fn, False, None); sg4.calculate_pdf(k4, fn, False, None); o4._clustering()
                         accs4.append(float(G.opf_accuracy(Yv.copy(), o4.predict(Xv.copy()))))
+                        states4.append(cand_snapshot(sg4))
                         sg4.destroy_arcs()
-                    if [fb(a_) for a_ in accs4] != [fb(v_) for v_ in crit]:
+                    if len(cand_states) == len(states4) and None not in cand_states:
+                        for k4, (a_, b_) in enumerate(zip(cand_states, states4), start=1):
+                            if a_ != b_:
+                                t_ = next(i_ for i_ in range(n) if a_[i_] != b_[i_])
+                                viol("C16", f"candidate k={k4} as evaluated by the search is not the model built for k={k4} on a subgraph whose arcs were destroyed after every candidate: sample {t_} has "
+                                            f"(arcs, pred, label, cost, density, plateaus) {a_[t_]} vs {b_[t_]}", meta)
+                                break
+                        res.hit("candidate_models_rederived")
+                    if (not inject) and [fb(a_) for a_ in accs4] != [fb(v_) for v_ in crit]:
                         viol("C16", f"validation accuracies seen by the search {[float(v_) for v_ in crit]} differ from those of the candidates built one by one "
                                     f"(arcs, densities, clustering, validation predictions for that k alone) {accs4}", meta)
                     res.hit("candidate_accuracies_rederived")
